@@ -3,7 +3,7 @@ from ..core import AnalysisError, term_s, subterms
 from . import conn
 from .c06 import fifo
 from .conn import leaves, ret_kind, self_field
-from .util import as_sum, const_of, is_call, last_seg, look, norm, truth, option_is_some
+from .util import as_sum, payload_of, const_of, is_call, last_seg, look, norm, truth, option_is_some
 
 EXPLANATION = (
     "Static decision of the carry-over mechanism that makes parsing independent of segmentation: a "
@@ -107,8 +107,8 @@ def cursor_defined(ctx):
         src = None
         for (t, c, _b) in lf.conds:
             x = look(t)
-            if x[0] == "payload" and is_call(x[1], conn.PARSE_RL, conn.PARSE_H, conn.PARSE_B) and truth(c) is False:
-                src = x[1][1]
+            if payload_of(x) is not None and is_call(payload_of(x), conn.PARSE_RL, conn.PARSE_H, conn.PARSE_B) and truth(c) is False:
+                src = payload_of(x)[1]
         ctx.ob("R01.2", "ok-only-on-need-more|%s" % (src.split("::")[-1] if src else "?"), src is not None, "the parser loop returns Ok only when a sub-parser returned false (needs more bytes)", fl.loc(lf.bb))
     ctx.ob("R01.2", "floor", n >= 3, "%d Ok exits of the parser loop (floor 3)" % n)
     fs, ls = leaves(ctx, conn.SHIFT)
@@ -142,15 +142,15 @@ def shift(ctx):
     fn, lv = leaves(ctx, conn.SHIFT)
 
     def delta(t):
-        t = look(t)
-        return t[0] == "payload" and is_call(t[1], "ok_or") and is_call(look(t[1][2][0]), "checked_sub") and look(look(t[1][2][0])[2][0]) == ("arg", 3) and look(look(t[1][2][0])[2][1]) == ("arg", 2)
+        cs = payload_of(t)
+        return cs is not None and is_call(cs, "checked_sub") and look(cs[2][0]) == ("arg", 3) and look(cs[2][1]) == ("arg", 2)
 
     def range_item(t, lo_pred, hi_pred):
         """t = (next(&mut into_iter(Range{lo,hi})) as Some).0"""
         t = look(t)
-        if not (t[0] == "field" and t[1][0] == "downcast" and t[1][2] == "Some" and is_call(look(t[1][1]), "next")):
+        if not (payload_of(t) is not None and is_call(payload_of(t), "next")):
             return False
-        it = look(look(t[1][1])[2][0])
+        it = look(payload_of(t)[2][0])
         while it[0] == "mut":
             it = look(it[1])
         if is_call(it, "into_iter"):
@@ -164,6 +164,24 @@ def shift(ctx):
             a = conn.assigns_to(lf, "read_cursor")
             ok = len(a) == 1 and delta(a[0][4])
             ctx.ob("R01.3", "cursor=end-start", ok, "read_cursor := checked_sub(end, start) on every Ok path", fn.loc(lf.bb))
+        # the same two block operations written with the slice methods of std
+        for e in lf.events:
+            if e[0] == "call" and last_seg(e[3]) == "copy_within" and self_field(e[4][2][0], "buffer"):
+                seen.add("copy")
+                r = look(e[4][2][1])
+                okc = r[0] == "agg" and r[1].startswith("std::ops::Range") and len(r[3]) == 2 and look(r[3][0]) == ("arg", 2) and look(r[3][1]) == ("arg", 3) and const_of(e[4][2][2]) == 0
+                ctx.ob("R01.3", "copy-loop", okc, "buffer.copy_within(start..end, 0): the unconsumed bytes are moved to the front", fn.loc(e[1]))
+            elif e[0] == "call" and last_seg(e[3]) == "fill" and e[3].startswith("core::slice"):
+                tgt = look(e[4][2][0])
+                while tgt[0] == "mut":
+                    tgt = look(tgt[1])
+                if is_call(tgt, "index_mut") and self_field(tgt[2][0], "buffer"):
+                    seen.add("zero")
+                    r = look(tgt[2][1])
+                    okz = r[0] == "agg" and r[1].startswith("std::ops::Range") and len(r[3]) == 2 and delta(r[3][0]) and look(r[3][1]) == ("arg", 3) and const_of(e[4][2][1]) == 0
+                    ctx.ob("R01.3", "clear-loop", okz, "buffer[end-start..end].fill(0): only bytes after the carried prefix are cleared", fn.loc(e[1]))
+            elif e[0] == "call" and last_seg(e[3]) in ("copy_from_slice", "clone_from_slice", "rotate_left", "rotate_right", "swap_with_slice", "fill_with", "reverse", "swap") and e[4][2] and any(isinstance(x, tuple) and x and x[0] == "field" and x[3] == "buffer" and x[2] == conn.HC for x in subterms(e[4][2][0])):
+                ctx.fail("R01.3", "buffer-write|unrecognised", "shift_buffer_left changes the buffer with %s, which is neither the move to the front nor the clearing" % last_seg(e[3]), fn.loc(e[1]))
         if lf.kind == "loop":
             w = [e for e in lf.events if e[0] == "assign" and e[5] is not None and e[5][0] == "index" and self_field(e[5][1], "buffer")]
             for e in w[-1:]:
@@ -207,9 +225,8 @@ def body(ctx):
         return self_field(t, "body_bytes_to_be_read")
 
     def start_plus_remaining(t):
-        t = look(t)
-        if t[0] == "payload" and is_call(t[1], "ok_or") and is_call(look(t[1][2][0]), "checked_add"):
-            ca = look(t[1][2][0])
+        ca = payload_of(t)
+        if ca is not None and is_call(ca, "checked_add"):
             return is_start(ca[2][0]) and remaining(ca[2][1])
         return False
 
@@ -267,7 +284,7 @@ def window(ctx):
     for lf in lr:
         r = look(lf.ret())
         rk = ret_kind(lf)
-        if is_call(r, "ok_or") and is_call(look(r[2][0]), "checked_add"):
+        if is_call(r, "ok_or") and is_call(look(r[2][0]), "checked_add") and len(r[2]) == 2:
             n_ok += 1
             ca = look(r[2][0])
             a, b = look(ca[2][0]), look(ca[2][1])
@@ -291,7 +308,7 @@ def window(ctx):
             if e[0] == "call" and e[3] in (conn.PARSE_RL, conn.PARSE_H, conn.PARSE_B):
                 n += 1
                 end = look(e[4][2][2])
-                okargs = okargs and end[0] == "payload" and is_call(end[1], conn.READ_BYTES)
+                okargs = okargs and payload_of(end) is not None and is_call(payload_of(end), conn.READ_BYTES)
     ctx.ob("R01.6", "parsers-get-that-end", okargs and n >= 3, "every sub-parser is given the end computed by read_bytes (%d call paths)" % n, fl.loc(0))
 
 
